@@ -1,10 +1,17 @@
 (* CloneFacts.v -- property C11: RawTable::clone / clone_from / clone_from_impl and HashMap ==.
 
-     L4  map_eq_spec         HashMap's PartialEq decides "same keys with equal values"; it is
-                             symmetric and invariant under permutation of either argument
-     L1  clone_from_impl_spec
-     L2  clone_table_spec
-     L3  clone_from_spec
+     L4  map_eq_spec           HashMap's PartialEq decides "same keys with equal values"; it is
+                               symmetric (map_eq_sym) and invariant under permutation of either
+                               argument (map_eq_perm)
+     L1  clone_from_impl_spec  (+ clone_from_impl_ok / _panic / _ok_iff) the cloning loop and its guard
+     L2  clone_table_spec      (+ clone_table_ok / clone_table_panic) RawTable::clone; clone_WF: the
+                               hash-dependent invariant carries over when clones hash like originals
+     L3  clone_from_spec       (+ clone_from_ok / clone_from_drops / realloc_evs_same / _diff)
+
+   Observation recorded by L3 (not a safety defect, leaking is safe in Rust): when a destructor of
+   an old element panics inside clone_from, the remaining old elements are leaked, and if the
+   source is the empty singleton the old block itself is leaked as well (drop_inner_table unwinds
+   before free_buckets; the events then contain no EvFree).  Nothing is ever dropped twice.
    No axioms. *)
 From Coq Require Import ZArith List Bool Lia Arith Permutation.
 From HB Require Import RsPrelude Sse2 Gen Group Raw Map Check ArithFacts WFDefs GroupFacts IterFacts
@@ -317,6 +324,43 @@ Section CloneFacts.
       exfalso. exact (Hall e He Ec).
   Qed.
 
+  (* L1, by hypothesis: every occupant clones *)
+  Corollary clone_from_impl_ok (src dst : table T) :
+    SafeWF B T src -> mask src <> 0 -> mask dst = mask src ->
+    length (ctrl dst) = length (ctrl src) -> length (slots dst) = nb T src ->
+    (forall e, In e (occupants T src) -> clone_of e <> None) ->
+    exists r, clone_from_impl B T clone_of dst src = Ok (r, true) /\
+      mask r = mask src /\ ctrl r = ctrl src /\ items r = items src /\ growth_left r = growth_left src /\
+      SafeWF B T r /\ (forall i, slot T r i = oclone (slot T src i)) /\
+      Forall2 Cloned (occupants T src) (occupants T r).
+  Proof.
+    intros H Hm Emd Elc Els Hall.
+    destruct (clone_from_impl_spec src dst H Hm Emd Elc Els) as (r & ok & E & Em & Ec & _ & Ht & Hf).
+    destruct ok.
+    - destruct (Ht eq_refl) as (_ & Ei & Eg & Hsafe & Hsl & HF). exists r.
+      split; [exact E|]. split; [exact Em|]. split; [exact Ec|]. split; [exact Ei|]. split; [exact Eg|].
+      split; [exact Hsafe|]. split; [exact Hsl | exact HF].
+    - exfalso. destruct (Hf eq_refl) as ((e & He & Hc) & _). exact (Hall e He Hc).
+  Qed.
+
+  (* L1, by hypothesis: some Clone panics -- the guard has dropped the clones made so far *)
+  Corollary clone_from_impl_panic (src dst : table T) :
+    SafeWF B T src -> mask src <> 0 -> mask dst = mask src ->
+    length (ctrl dst) = length (ctrl src) -> length (slots dst) = nb T src ->
+    (exists e, In e (occupants T src) /\ clone_of e = None) ->
+    exists r, clone_from_impl B T clone_of dst src = Ok (r, false) /\
+      mask r = mask src /\ ctrl r = ctrl src /\ length (slots r) = nb T src /\
+      (forall i, slot T r i = None) /\ occupants T r = [].
+  Proof.
+    intros H Hm Emd Elc Els (e & He & Hc).
+    destruct (clone_from_impl_spec src dst H Hm Emd Elc Els) as (r & ok & E & Em & Ec & El & Ht & Hf).
+    destruct ok.
+    - exfalso. destruct (Ht eq_refl) as (Hall & _). exact (Hall e He Hc).
+    - destruct (Hf eq_refl) as (_ & _ & _ & Hsl & Hocc). exists r.
+      split; [exact E|]. split; [exact Em|]. split; [exact Ec|]. split; [exact El|].
+      split; [exact Hsl | exact Hocc].
+  Qed.
+
   (* ---------------------------------------------------------------------------------------- *)
   (* L2: RawTable::clone                                                                        *)
   (* ---------------------------------------------------------------------------------------- *)
@@ -511,9 +555,10 @@ Section CloneFacts.
     intros (l' & E & Hl'). apply map_EvDrop_inj in E. subst l'.
     assert (Hin : In e (firstn (length (l ++ [e])) occ0)).
     { rewrite <- Hl'. apply in_or_app. right. left. reflexivity. }
-    revert Hin. generalize (length (l ++ [e])). intros n. revert occ0.
-    induction n as [|n IH]; intros [|x occ0]; cbn [firstn]; try (intros []).
-    intros [->|Hin]; [left; reflexivity | right; exact (IH occ0 Hin)].
+    clear Hl'. revert Hin. generalize (length (l ++ [e])). intros n. revert occ0.
+    induction n as [|n IH]; intros occ1; [intros []|].
+    destruct occ1 as [|x occ1]; cbn [firstn]; [intros []|].
+    intros [->|Hin]; [left; reflexivity | right; exact (IH occ1 Hin)].
   Qed.
 
   Definition DropPanicked (self : table T) (evs : list (event T)) : Prop :=
@@ -552,7 +597,7 @@ Section CloneFacts.
         unfold all_drops, realloc_evs. rewrite new_table_occupants.
         destruct needs_drop; reflexivity.
       + destruct (H1 Hms) as (len & al & off & dr & El & Hv & Hpre & Hall & Htriv & Hfail & Hevs).
-        destruct ok; cbn [negb]; (split; [|discriminate]); intros _.
+        destruct ok; cbn [negb]; [split; [|discriminate] | split; [discriminate|]]; intros _.
         * split; [intros e []|]. split; [apply CloneOf_singleton|].
           subst evs. f_equal.
           -- unfold all_drops. destruct needs_drop; [apply Hall; reflexivity|].
@@ -621,11 +666,11 @@ Section CloneFacts.
                         length (slots nt) = nb T src).
           { unfold nt. cbn [mask ctrl slots]. rewrite !repeat_length.
             split; [unfold nb, buckets; lia|]. split; [symmetry; exact Hlcsrc | reflexivity]. }
-          destruct (Nat.eqb_spec (mask s1) 0) as [Hs10|Hs1].
+          destruct (Nat.eqb_spec (mask self) 0) as [Hs10|Hms].
           + cbn [bind]. exists nt, ([EvAlloc len al] ++ []). split; [reflexivity|].
             destruct Hnt as (N1 & N2 & N3). split; [exact N1|]. split; [exact N2|]. split; [exact N3|].
-            rewrite (block_ev_singleton EvFree self) by congruence. reflexivity.
-          + assert (Hms : mask self <> 0) by congruence.
+            rewrite (block_ev_singleton EvFree self Hs10). reflexivity.
+          + assert (Hs1 : mask s1 <> 0) by congruence.
             destruct (block_ev_own EvFree self Hs HOs Hms) as (len' & al' & off' & El' & _ & ->).
             assert (El1' : layout_for B tsize talign (nb T s1) = Some (len', al', off')).
             { unfold nb, buckets in *. rewrite Em1. exact El'. }
@@ -739,6 +784,8 @@ Print Assumptions map_eq_sym.
 Print Assumptions map_eq_perm.
 Print Assumptions clone_from_impl_spec.
 Print Assumptions clone_from_impl_ok_iff.
+Print Assumptions clone_from_impl_ok.
+Print Assumptions clone_from_impl_panic.
 Print Assumptions clone_table_spec.
 Print Assumptions clone_table_ok.
 Print Assumptions clone_table_panic.
@@ -746,3 +793,31 @@ Print Assumptions clone_from_spec.
 Print Assumptions clone_from_ok.
 Print Assumptions clone_from_drops.
 Print Assumptions realloc_evs_diff.
+
+(* ---------------------------------------------------------------------------------------- *)
+(* a clone compares equal to its source                                                       *)
+(* ---------------------------------------------------------------------------------------- *)
+Lemma Forall2_same_keys (R : kv -> kv -> Prop) (a b : list kv) :
+  (forall e c, R e c -> k_id c = k_id e /\ v_val c = v_val e) ->
+  Forall2 R a b -> map k_id b = map k_id a /\ same_kv a b.
+Proof.
+  intros HR H. induction H as [|e c a b Hec H IH].
+  - split; [reflexivity | intros k; reflexivity].
+  - destruct IH as [IHk IHs]. destruct (HR e c Hec) as [Ek Ev]. split.
+    + cbn [map]. rewrite Ek, IHk. reflexivity.
+    + intros k. cbn [lookup]. rewrite Ek. destruct (Z.eqb (k_id e) k).
+      * cbn [option_map]. rewrite Ev. reflexivity.
+      * apply IHs.
+Qed.
+
+Theorem clone_compares_equal B (clone_of : kv -> option kv) (src r : table kv) :
+  (forall e c, clone_of e = Some c -> k_id c = k_id e /\ v_val c = v_val e) ->
+  CloneOf B kv clone_of src r -> NoDup (map k_id (occupants kv src)) ->
+  map_eq (occupants kv src) (occupants kv r) = true /\ map_eq (occupants kv r) (occupants kv src) = true.
+Proof.
+  intros HR HC ND. destruct HC as (_ & _ & _ & _ & _ & HF & _).
+  destruct (Forall2_same_keys (Cloned kv clone_of) _ _ HR HF) as [Ek Es].
+  assert (ND' : NoDup (map k_id (occupants kv r))) by (rewrite Ek; exact ND).
+  assert (E : map_eq (occupants kv src) (occupants kv r) = true) by (apply map_eq_spec; assumption).
+  split; [exact E|]. rewrite map_eq_sym; assumption.
+Qed.
